@@ -68,10 +68,10 @@ GUARDS = [
     (['C01'], 'finalize_implied_rate', 'src/xact.cc', r'bool\s+xact_base_t::finalize\s*\(\s*\)\s*\{', [
         'std::size_t commodities_left = 0; if (! null_post && balance.is_balance()) foreach (const balance_t::amounts_map::value_type& pair, balance.as_balance().amounts) if (! pair.second.is_realzero()) commodities_left++;',
         'if (commodities_left == 2) {',
-        'if (! post->amount.is_null() && post->must_balance()) { if (post->amount.has_annotation()) top_post = post; else if (! top_post) top_post = post; }',
+        'foreach (const balance_t::amounts_map::value_type& pair, bal.amounts) { if (pair.second.is_realzero()) continue; if (! x) x = &pair.second; else y = &pair.second; }',
+        'if (! post->amount.is_null() && post->must_balance() && (post->amount.commodity() == x->commodity() || post->amount.commodity() == y->commodity())) { if (post->amount.has_annotation()) top_post = post; else if (! top_post) top_post = post; }',
         'if (post->cost && ! post->has_flags(POST_COST_CALCULATED)) { saw_cost = true; break; }',
         'if (! saw_cost && top_post) {',
-        'foreach (const balance_t::amounts_map::value_type& pair, bal.amounts) { if (pair.second.is_realzero()) continue; if (! x) x = &pair.second; else y = &pair.second; }',
         'if (*x && *y) { if (x->commodity() != top_post->amount.commodity()) std::swap(x, y);',
         'amount_t per_unit_cost = (*y / *x).abs().unrounded();',
         'if (post->must_balance() && amt.commodity() == comm) { balance -= amt; post->cost = per_unit_cost * amt; post->add_flags(POST_COST_CALCULATED); balance += *post->cost;']),
